@@ -44,6 +44,9 @@ def unmarshaller(
     if not nodes:
         return routines.NoOpUnmarshaller(t=t, context=context, var=None)  # type: ignore[arg-type]
 
+    # `Any` has no node in the graph, yet containers of `Any` look their member routine up.
+    context[tp.Any] = routines.NoOpUnmarshaller(tp.Any, context=context, var=None)  # type: ignore[arg-type]
+
     # "root" type will always be the final node in the sequence.
     root = nodes[-1]
     for node in nodes:
